@@ -213,6 +213,10 @@ func (am *Machine) encryptDataForParticipant(dkgIdentifier, to string, data []by
 
 // decryptDataFromParticipant decrypts the data that was sent to us
 func (am *Machine) decryptDataFromParticipant(data []byte) ([]byte, error) {
+	// ecies.Decrypt slices the ephemeral point off the data without checking that it is there
+	if len(data) < am.baseSuite.PointLen() {
+		return nil, errors.New("failed to decrypt data: data is too short")
+	}
 	decryptedData, err := ecies.Decrypt(am.baseSuite, am.secKey, data, am.baseSuite.Hash)
 	if err != nil {
 		return nil, fmt.Errorf("failed to decrypt data: %w", err)
